@@ -34,11 +34,21 @@ def senders(p):
         ops = [n for n in walk_no_nested(fi.node) if isinstance(n, ast.Call) and isinstance(n.func, ast.Attribute) and n.func.attr in OUTPUT_OPS and "self" in ast.unparse(n.func.value)]
         if not ops:
             continue
+        # the router-facing entry: the method of the class that schedules this coroutine as a task (found on the
+        # interpreted paths, so a temporary between the call and create_task does not matter)
         entry = None
         for g in list(fi.cls.methods.values()):
-            for n in walk_no_nested(g.node):
-                if isinstance(n, ast.Call) and isinstance(n.func, ast.Attribute) and n.func.attr == "create_task" and n.args and isinstance(n.args[0], ast.Call) and isinstance(n.args[0].func, ast.Attribute) and n.args[0].func.attr == fi.name:
-                    entry = g
+            if g is fi or g.is_async:
+                continue
+            try:
+                gpaths = run_method(p, g)
+            except Exception:
+                continue
+            for pa in gpaths:
+                for e in pa.calls(method="create_task"):
+                    a0 = e.data["args"][0] if e.data["args"] else None
+                    if isinstance(a0, Term) and is_call(a0, method=fi.name):
+                        entry = g
         out.append((fi.cls, fi, entry))
     return out
 
